@@ -132,12 +132,26 @@ pub fn module(log: Log) -> RpcModule<()> {
 
 pub type Svc = jsonrpsee::server::TowerService<tower::layer::util::Identity, tower::layer::util::Identity>;
 
+/// How the server is assembled: the default tower service (what `Server::start` uses), or the
+/// low-level API (`ws::connect` + `http::call_with_service_builder` inside a user-written service).
+#[derive(Clone, Copy, Debug, PartialEq)]
+pub enum Assembly {
+	Tower,
+	LowLevel,
+}
+
 pub struct Env {
 	pub cfg: EnvCfg,
 	pub log: Log,
 	pub svc: Svc,
 	pub handle: ServerHandle,
 	pub ids: Arc<CounterIds>,
+	pub assembly: Assembly,
+	server_cfg: ServerConfig,
+	stop: jsonrpsee::server::StopHandle,
+	methods: jsonrpsee::server::Methods,
+	guard: jsonrpsee::server::ConnectionGuard,
+	next_conn: Arc<std::sync::atomic::AtomicU32>,
 }
 
 #[derive(Debug)]
@@ -150,6 +164,10 @@ impl IdProvider for SharedIds {
 
 impl Env {
 	pub fn new(cfg: EnvCfg) -> Env {
+		Self::with_assembly(cfg, Assembly::Tower)
+	}
+
+	pub fn with_assembly(cfg: EnvCfg, assembly: Assembly) -> Env {
 		let log: Log = Arc::new(Mutex::new(vec![]));
 		let ids = Arc::new(CounterIds(AtomicU64::new(0)));
 		let server_cfg = ServerConfig::builder()
@@ -160,8 +178,27 @@ impl Env {
 			.set_id_provider(SharedIds(ids.clone()))
 			.build();
 		let (stop, handle) = stop_channel();
-		let svc = Server::builder().set_config(server_cfg).to_service_builder().build(module(log.clone()), stop);
-		Env { cfg, log, svc, handle, ids }
+		let m = module(log.clone());
+		let methods: jsonrpsee::server::Methods = m.clone().into();
+		let svc = Server::builder().set_config(server_cfg.clone()).to_service_builder().build(m, stop.clone());
+		Env {
+			cfg,
+			log,
+			svc,
+			handle,
+			ids,
+			assembly,
+			server_cfg,
+			stop,
+			methods,
+			guard: jsonrpsee::server::ConnectionGuard::new(1000),
+			next_conn: Default::default(),
+		}
+	}
+
+	fn conn_state(&self) -> jsonrpsee::server::ConnectionState {
+		let permit = self.guard.try_acquire().expect("guard has room");
+		jsonrpsee::server::ConnectionState::new(self.stop.clone(), self.next_conn.fetch_add(1, Ordering::SeqCst), permit)
 	}
 
 	pub fn take_log(&self) -> Vec<(String, String)> {
@@ -178,7 +215,19 @@ impl Env {
 			b = b.header(k.as_str(), http::HeaderValue::from_bytes(v).unwrap());
 		}
 		let req = b.body(body).unwrap();
-		let rp = self.svc.call(req).await.unwrap();
+		let rp = match self.assembly {
+			Assembly::Tower => self.svc.call(req).await.unwrap(),
+			Assembly::LowLevel => {
+				jsonrpsee::server::http::call_with_service_builder(
+					req,
+					self.server_cfg.clone(),
+					self.conn_state(),
+					self.methods.clone(),
+					jsonrpsee::server::middleware::rpc::RpcServiceBuilder::new(),
+				)
+				.await
+			}
+		};
 		let status = rp.status().as_u16();
 		let body = rp.into_body().collect().await.map(|c| c.to_bytes().to_vec()).unwrap_or_default();
 		(status, body)
@@ -187,11 +236,44 @@ impl Env {
 	/// Open a WebSocket session over an in-memory duplex.
 	pub async fn ws(&self) -> WsPeer {
 		let (client, server) = tokio::io::duplex(1 << 22);
-		let svc = self.svc.clone();
 		let stopped = self.handle.clone();
-		tokio::spawn(async move {
-			let _ = jsonrpsee::server::serve_with_graceful_shutdown(server, svc, async move { stopped.stopped().await }).await;
-		});
+		match self.assembly {
+			Assembly::Tower => {
+				let svc = self.svc.clone();
+				tokio::spawn(async move {
+					let _ = jsonrpsee::server::serve_with_graceful_shutdown(server, svc, async move { stopped.stopped().await }).await;
+				});
+			}
+			Assembly::LowLevel => {
+				let server_cfg = self.server_cfg.clone();
+				let methods = self.methods.clone();
+				let stop = self.stop.clone();
+				let guard = self.guard.clone();
+				let next_conn = self.next_conn.clone();
+				let svc = tower::service_fn(move |req: http::Request<hyper::body::Incoming>| {
+					let server_cfg = server_cfg.clone();
+					let methods = methods.clone();
+					let permit = guard.try_acquire().expect("guard has room");
+					let conn = jsonrpsee::server::ConnectionState::new(stop.clone(), next_conn.fetch_add(1, Ordering::SeqCst), permit);
+					async move {
+						if jsonrpsee::server::ws::is_upgrade_request(&req) {
+							match jsonrpsee::server::ws::connect(req, server_cfg, methods, conn, jsonrpsee::server::middleware::rpc::RpcServiceBuilder::new()).await {
+								Ok((rp, conn_fut)) => {
+									tokio::spawn(conn_fut);
+									Ok::<_, std::convert::Infallible>(rp)
+								}
+								Err(rp) => Ok(rp),
+							}
+						} else {
+							Ok(jsonrpsee::server::http::call_with_service_builder(req, server_cfg, conn, methods, jsonrpsee::server::middleware::rpc::RpcServiceBuilder::new()).await)
+						}
+					}
+				});
+				tokio::spawn(async move {
+					let _ = jsonrpsee::server::serve_with_graceful_shutdown(server, svc, async move { stopped.stopped().await }).await;
+				});
+			}
+		}
 		let mut c = soketto::handshake::Client::new(BufReader::new(BufWriter::new(client.compat())), "localhost", "/");
 		match c.handshake().await.unwrap() {
 			soketto::handshake::ServerResponse::Accepted { .. } => {}
